@@ -2,11 +2,16 @@
 C11 — State types serialize and deserialize losslessly.
 
 What is LiQuer's own logic here is DISPATCH (registry look-up, default extension, media type) and FRAMING
-(the line-oriented `djson` dictionary format with JSON-escaped keys and base64 triples).  The codecs
-(json, pickle, pandas/pyarrow, base64) are third party: they enter as parameters whose round-trip law is an
-explicit hypothesis (`CodecLaw`, `ElemEnvLaw`), validated differentially by harness/props/C11.py, NOT proved.
+(the line-oriented `djson` dictionary format with JSON-escaped keys and base64 triples) — and the two codecs that
+are LiQuer's own code: `TextStateType` (UTF-8, strict decoding) and `BytesStateType` (identity).  For these two the
+codec law is PROVED (`c11_text_codec_law`, `c11_bytes_codec_law`: every string of Unicode scalar values, every byte
+string) and the round trip through the regenerated registry holds with no codec hypothesis (`c11_own_roundtrip`,
+`c11_own_copy`).  The remaining codecs (json, pickle, pandas/pyarrow/polars, base64) are third party: they enter as
+parameters whose round-trip law is an explicit hypothesis (`CodecLaw`, `ElemEnvLaw`), validated differentially by
+harness/props/C11.py, NOT proved.
 -/
 import LiquerProofs.Lemmas.Djson
+import LiquerProofs.Lemmas.StateTypesCodec
 import LiquerProofs.Inst.StateTypes
 
 namespace Liquer.C11
@@ -142,6 +147,124 @@ example : encodeStateData demoReg demoCodec 5 none = some (6, ['m'], ['d']) := b
 example : decodeStateData demoReg demoCodec 6 ['d'] none = some 5 := by decide
 example : ∀ T y, demoCodec.copy T y = some y := fun _ _ => rfl
 example : copyStateData demoReg demoCodec 7 = some 7 := c11_copy_dispatch demoReg demoCodec 7 (fun _ _ => rfl)
+
+/-! ### the codecs that are LiQuer's own code: `TextStateType` and `BytesStateType` — proved, not assumed -/
+
+/-- **text codec law**: `TextStateType().from_bytes(TextStateType().as_bytes(s, e)[0], e) == s` for EVERY string of
+Unicode scalar values and every extension — strict UTF-8 decoding inverts UTF-8 encoding. -/
+theorem c11_text_codec_law (e : Str) : CodecLaw ownCodec ['t', 'e', 'x', 't'] e := by
+  intro x b h
+  cases x with
+  | text s =>
+    simp only [ownCodec, identText, ↓reduceIte, Option.some.injEq] at h
+    subst h
+    simp [ownCodec, identText, utf8Strict_utf8Bytes]
+  | bytes b' => simp [ownCodec, identText, identBytes] at h
+
+/-- **bytes codec law**: `BytesStateType` hands every byte string through unchanged, both ways. -/
+theorem c11_bytes_codec_law (e : Str) : CodecLaw ownCodec ['b', 'y', 't', 'e', 's'] e := by
+  intro x b h
+  cases x with
+  | text s => simp [ownCodec, identText, identBytes] at h
+  | bytes b' =>
+    simp only [ownCodec, identBytes, ↓reduceIte, Option.some.injEq] at h
+    subst h
+    simp [ownCodec, identText, identBytes]
+
+/-- the text decoder is injective where it succeeds: it accepts nothing but the UTF-8 encoding of what it returns
+(no two stored byte strings are read back as the same text) -/
+theorem c11_text_decode_exact (e : Str) (b : List UInt8) (s : Str)
+    (h : ownCodec.dec ['t', 'e', 'x', 't'] e b = some (.text s)) :
+    ownCodec.enc ['t', 'e', 'x', 't'] e (.text s) = some b := by
+  simp only [ownCodec, identText, ↓reduceIte, Option.map_eq_some_iff, OwnVal.text.injEq] at h ⊢
+  obtain ⟨s', hs, rfl⟩ := h
+  rw [utf8Bytes_of_utf8Strict b s' hs]
+
+/-- identifier of the state type that serves the value -/
+def ownIdent : OwnVal → Str
+  | .text _ => ['t', 'e', 'x', 't']
+  | .bytes _ => ['b', 'y', 't', 'e', 's']
+
+/-- the stored bytes: UTF-8 of a text, a byte string itself -/
+def ownBytes : OwnVal → List UInt8
+  | .text s => utf8Bytes s
+  | .bytes b => b
+
+/-- the regenerated registry lists extension `e` as both written and read by the state type with identifier `tid` -/
+def listedRW (tid e : Str) : Bool :=
+  match Gen.stateTypeRegistry.row tid with
+  | some r => r.writesExt e && r.readsExt e
+  | none => false
+
+theorem own_codec_law (x : OwnVal) (e : Str) : CodecLaw ownCodec (ownIdent x) e := by
+  cases x with
+  | text s => exact c11_text_codec_law e
+  | bytes b => exact c11_bytes_codec_law e
+
+/-- side fact about the regenerated registry: `str` is served by the `text`, `bytes` by the `bytes` state type -/
+theorem own_get (x : OwnVal) : Gen.stateTypeRegistry.get (ownCodec.typeOf x) = ownIdent x := by
+  cases x with
+  | text s =>
+    show Gen.stateTypeRegistry.get qualStr = ['t', 'e', 'x', 't']
+    decide +kernel
+  | bytes b =>
+    show Gen.stateTypeRegistry.get qualBytes = ['b', 'y', 't', 'e', 's']
+    decide +kernel
+
+/-- **C11 round trip of the own state types, no hypothesis about any codec**: for EVERY text (string of Unicode scalar
+values) and EVERY byte string `x`, and every extension — omitted (the type's default, `txt` / `b`) or any one the
+regenerated registry lists as written and read by the value's state type — `encode_state_data` succeeds with the
+UTF-8 bytes (the bytes themselves) and the identifier `text` (`bytes`), and `decode_state_data` on exactly these bytes
+with the recorded identifier returns `x`. -/
+theorem c11_own_roundtrip (x : OwnVal) (ext : Option Str)
+    (hext : ∀ e, ext = some e → listedRW (ownIdent x) e = true) :
+    ∃ m, encodeStateData Gen.stateTypeRegistry ownCodec x ext = some (ownBytes x, m, ownIdent x) ∧
+      decodeStateData Gen.stateTypeRegistry ownCodec (ownBytes x) (ownIdent x) ext = some x := by
+  have hget := own_get x
+  obtain ⟨_, r, hr, _, hwd, _, _, _⟩ := dispatch_of_regOK _ Inst.stateTypes_ok (ownCodec.typeOf x)
+  rw [hget] at hr
+  obtain ⟨e, he, hw⟩ : ∃ e, extOr Gen.stateTypeRegistry (ownIdent x) ext = some e ∧ r.writesExt e = true := by
+    cases ext with
+    | none => exact ⟨r.defaultExt, by simp [extOr, hr], hwd⟩
+    | some e =>
+      refine ⟨e, rfl, ?_⟩
+      have := hext e rfl
+      simp only [listedRW, hr, Bool.and_eq_true] at this
+      exact this.1
+  obtain ⟨m, hm⟩ := mimeOf_of_writesExt r e hw
+  have hencb : ownCodec.enc (ownIdent x) e x = some (ownBytes x) := by
+    cases x <;> simp [ownCodec, ownIdent, ownBytes, identText, identBytes]
+  have henc : encodeStateData Gen.stateTypeRegistry ownCodec x ext = some (ownBytes x, m, ownIdent x) := by
+    simp only [encodeStateData, hget, hr, he, hm, hencb]
+  exact ⟨m, henc, c11_roundtrip ownCodec x ext _ m _ e henc he (own_codec_law x e)⟩
+
+/-- **C11 copy of the own state types**: `copy_state_data` returns an equal value for every text and byte string -/
+theorem c11_own_copy (x : OwnVal) : copyStateData Gen.stateTypeRegistry ownCodec x = some x := by
+  unfold copyStateData
+  rw [own_get x]
+  cases x <;> simp [ownCodec, ownIdent, identText, identBytes]
+
+/-! non-vacuity: `"hé𝄞"` (ASCII, two-byte, astral) through the regenerated registry, default extension and `html`;
+the extensions the hypothesis of `c11_own_roundtrip` admits; strictness of the decoder (Python raises
+`UnicodeDecodeError`): truncated sequence, overlong NUL, encoded surrogate, beyond U+10FFFF, lone continuation byte -/
+example : encodeStateData Gen.stateTypeRegistry ownCodec (.text ['h', Char.ofNat 233, Char.ofNat 0x1D11E]) none =
+    some ([0x68, 0xc3, 0xa9, 0xf0, 0x9d, 0x84, 0x9e], ['t', 'e', 'x', 't', '/', 'p', 'l', 'a', 'i', 'n'], ['t', 'e', 'x', 't']) := by
+  decide +kernel
+example : decodeStateData Gen.stateTypeRegistry ownCodec [0x68, 0xc3, 0xa9, 0xf0, 0x9d, 0x84, 0x9e] ['t', 'e', 'x', 't'] none =
+    some (.text ['h', Char.ofNat 233, Char.ofNat 0x1D11E]) := by decide +kernel
+example : decodeStateData Gen.stateTypeRegistry ownCodec [0x68, 0xc3, 0xa9, 0xf0, 0x9d, 0x84, 0x9e] ['t', 'e', 'x', 't']
+    (some ['h', 't', 'm', 'l']) = some (.text ['h', Char.ofNat 233, Char.ofNat 0x1D11E]) := by decide +kernel
+example : listedRW ['t', 'e', 'x', 't'] ['t', 'x', 't'] = true ∧ listedRW ['t', 'e', 'x', 't'] ['h', 't', 'm', 'l'] = true ∧
+    listedRW ['b', 'y', 't', 'e', 's'] ['b'] = true ∧ listedRW ['b', 'y', 't', 'e', 's'] ['p', 'n', 'g'] = true := by decide +kernel
+example : ∃ m, encodeStateData Gen.stateTypeRegistry ownCodec (.bytes [0, 255, 0xc3]) (some ['p', 'n', 'g']) = some ([0, 255, 0xc3], m, ['b', 'y', 't', 'e', 's']) ∧
+    decodeStateData Gen.stateTypeRegistry ownCodec [0, 255, 0xc3] ['b', 'y', 't', 'e', 's'] (some ['p', 'n', 'g']) = some (.bytes [0, 255, 0xc3]) :=
+  c11_own_roundtrip (.bytes [0, 255, 0xc3]) (some ['p', 'n', 'g']) (by intro e h; cases h; decide +kernel)
+example : ownCodec.dec ['t', 'e', 'x', 't'] ['t', 'x', 't'] [0x68, 0xc3] = none ∧
+    ownCodec.dec ['t', 'e', 'x', 't'] ['t', 'x', 't'] [0xc0, 0x80] = none ∧
+    ownCodec.dec ['t', 'e', 'x', 't'] ['t', 'x', 't'] [0xed, 0xa0, 0x80] = none ∧
+    ownCodec.dec ['t', 'e', 'x', 't'] ['t', 'x', 't'] [0xf4, 0x90, 0x80, 0x80] = none ∧
+    ownCodec.dec ['t', 'e', 'x', 't'] ['t', 'x', 't'] [0x80] = none := by decide +kernel
+example : copyStateData Gen.stateTypeRegistry ownCodec (.text [Char.ofNat 233]) = some (.text [Char.ofNat 233]) := c11_own_copy _
 
 /-! ### keys: JSON string escaping -/
 
@@ -344,4 +467,4 @@ example :
 
 end Liquer.C11
 
--- OBLIGATIONS: Liquer.C11.c11_dispatch Liquer.C11.c11_mime Liquer.C11.c11_roundtrip_generic Liquer.C11.c11_roundtrip Liquer.C11.c11_copy_dispatch Liquer.C11.c11_key_roundtrip Liquer.C11.c11_djson Liquer.C11.c11_djson_elements Liquer.C11.c11_djson_full Liquer.C11.c11_register_selects Liquer.C11.c11_register_frame Liquer.C11.c11_register_history
+-- OBLIGATIONS: Liquer.C11.c11_dispatch Liquer.C11.c11_mime Liquer.C11.c11_roundtrip_generic Liquer.C11.c11_roundtrip Liquer.C11.c11_copy_dispatch Liquer.C11.c11_text_codec_law Liquer.C11.c11_bytes_codec_law Liquer.C11.c11_text_decode_exact Liquer.C11.c11_own_roundtrip Liquer.C11.c11_own_copy Liquer.C11.c11_key_roundtrip Liquer.C11.c11_djson Liquer.C11.c11_djson_elements Liquer.C11.c11_djson_full Liquer.C11.c11_register_selects Liquer.C11.c11_register_frame Liquer.C11.c11_register_history
